@@ -11,18 +11,19 @@ namespace c18 {
 
 struct DiagInfo {
   std::vector<std::pair<int, int> > iv;  // integer units
-  bool rep = false, eqb = false, eqd = false, touch = false, nested = false, zero = false, odd = false, overlap = false;
+  bool rep = false, eqb = false, eqd = false, touch = false, nested = false, zero = false, mixed_parity = false, overlap = false;
   int style = 0;
   bool tie() const { return rep || eqb || eqd || touch; }
   std::string cls() const { return zero ? "zero_len" : tie() ? "ties" : "generic"; }
 };
 
 inline void classify(DiagInfo& d) {
-  d.rep = d.eqb = d.eqd = d.touch = d.nested = d.zero = d.odd = d.overlap = false;
+  d.rep = d.eqb = d.eqd = d.touch = d.nested = d.zero = d.mixed_parity = d.overlap = false;
+  bool has_even = false, has_odd = false;
   for (size_t i = 0; i < d.iv.size(); ++i) {
     auto a = d.iv[i];
     if (a.first == a.second) d.zero = true;
-    if ((a.first & 1) || (a.second & 1)) d.odd = true;
+    ((a.first & 1) ? has_odd : has_even) = true; ((a.second & 1) ? has_odd : has_even) = true;
     for (size_t j = 0; j < d.iv.size(); ++j) {
       if (i == j) continue;
       auto b = d.iv[j];
@@ -34,19 +35,16 @@ inline void classify(DiagInfo& d) {
       if (std::max(a.first, b.first) < std::min(a.second, b.second)) d.overlap = true;
     }
   }
+  d.mixed_parity = has_even && has_odd;
 }
 
 struct GenOpts {
   int R = 32;           // coordinates in 0..R
-  bool even = false;    // only even coordinates
   bool allow_zero = true;
   int max_m = 12;
 };
 
-inline int coord(vh::Rng& r, const GenOpts& o) {
-  if (o.even) return 2 * (int)r.below(o.R / 2 + 1);
-  return (int)r.below(o.R + 1);
-}
+inline int coord(vh::Rng& r, const GenOpts& o) { return (int)r.below(o.R + 1); }
 inline std::pair<int, int> rnd_interval(vh::Rng& r, const GenOpts& o) {
   int a = coord(r, o), b = coord(r, o);
   while (a == b) b = coord(r, o);
@@ -59,7 +57,7 @@ inline DiagInfo gen_diagram(vh::Rng& r, const GenOpts& o) {
   unsigned u = (unsigned)r.below(100);
   if (u < 2) m = 0; else if (u < 6) m = 1; else m = 2 + (int)r.below(o.max_m - 1);
   d.style = (int)r.below(6);
-  int unit = o.even ? 2 : 1;
+  const int unit = 1;
   switch (d.style) {
     case 0:  // independent uniform intervals
       for (int i = 0; i < m; ++i) d.iv.push_back(rnd_interval(r, o));
@@ -92,7 +90,6 @@ inline DiagInfo gen_diagram(vh::Rng& r, const GenOpts& o) {
     }
     case 3: {  // touching / overlapping chain
       int a = coord(r, o) / 2;
-      if (o.even) a &= ~1;
       for (int i = 0; i < m; ++i) {
         int len = unit * (1 + (int)r.below(4));
         if (a + len > o.R) break;
@@ -133,6 +130,12 @@ inline DiagInfo gen_diagram(vh::Rng& r, const GenOpts& o) {
   r.shuffle(d.iv);
   classify(d);
   return d;
+}
+
+// maps every coordinate j to 2j + parity (parity 0 or 1): all endpoints get the same parity
+inline void same_parity(DiagInfo& d, int parity) {
+  for (auto& p : d.iv) { p.first = 2 * p.first + parity; p.second = 2 * p.second + parity; }
+  classify(d);
 }
 
 inline lsdef::Diagram to_coords(const DiagInfo& d, double origin, double step) {
